@@ -18,10 +18,16 @@
      ctrl_total          sum of the control counts in a chain
      strip_ctrl          the gate under the outer ControlledGate wrappers
      nf                  invariant of every gate reachable from a Base by method calls (GateAstProofs.reachable_nf)
-     int_powers_only, herm_flags_sound (in section Sem)
+     wf                  what the constructors' __post_init__ checks guarantee for every Python object
+     int_powers_only, herm_flags_sound, ctrl_ok      side conditions of the dagger / controlled theorems
      oracles, sem        matrix of a gate over a cring K; sympy's Matrix.exp / inv / fractional ** are the
                          fields of an [oracles] record, assumptions about them are separate records of laws
-     diag_id d0 U        sympy.Matrix.diag(eye(d0), U)                                                    *)
+     diag_id d0 U        sympy.Matrix.diag(eye(d0), U)
+   Theorems for later users: GateAstProofs.v (power_shape, dagger_shape, controlled_shape, chain_shape: qubit
+   counts and parameters; wf_*/nf_* preservation; dagger_nf, controlled_nf, power_nf: what the methods do on
+   reachable gates; replace_params_mod/_chain), GateAstSemProofs.v (diag_id_* algebra, mpow_* lemmas,
+   dagger_sem, controlled_sem, controlled_sem_nf, power_nonneg_sem, power_neg_sem, power_root_sem, power_sem;
+   hfs_*/ipo_* : herm_flags_sound / int_powers_only are preserved by the methods).                          *)
 Require Import Coq.Arith.Arith Coq.ZArith.ZArith Coq.Lists.List Coq.Strings.String Coq.Bool.Bool.
 Require Import Coq.Numbers.DecimalString.
 Require Import OQ.Base.Ring OQ.Base.Sums OQ.Base.Mat.
@@ -255,6 +261,15 @@ Section Sem.
     | Ctrl w _ | Dag w | Exp w | Pow w _ => herm_flags_sound w
     end.
 
+  (* where .controlled has to call .dagger (a Dagger node met on the way down through Dagger/Power nodes), the
+     gate under it must be one on which .dagger is right: integer powers only (finding F8) and sound flags *)
+  Fixpoint ctrl_ok (g : gate P) : Prop :=
+    match g with
+    | Base _ _ _ _ | Exp _ | Ctrl _ _ => True
+    | Dag w => ctrl_ok w /\ herm_flags_sound w /\ int_powers_only w = true
+    | Pow w _ => ctrl_ok w
+    end.
+
   (* Assumptions about sympy, grouped by the theorems that need them. *)
   (* Matrix.exp(): depends only on the d x d block; exp(M^dagger) = exp(M)^dagger *)
   Record exp_laws : Prop := {
@@ -277,4 +292,4 @@ Section Sem.
 End Sem.
 
 Arguments dim {P}. Arguments mpowz {K P}. Arguments sem {K P}. Arguments herm_flags_sound {K P}.
-Arguments exp_laws {K P}. Arguments inv_laws {K P}. Arguments frac_laws {K P}.
+Arguments ctrl_ok {K P}. Arguments exp_laws {K P}. Arguments inv_laws {K P}. Arguments frac_laws {K P}.
